@@ -151,6 +151,7 @@ def p_C09(res, facts, tier):
 def p_C19(res, facts, tier):
     from .rules import quant
     quant.check_convert(res, facts, 'C19')
+    quant.check_tiling(res, facts)
 
 
 def p_C13(res, facts, tier):
@@ -206,7 +207,7 @@ PROPS = {
     'C07': dict(undecided='nothing (one reasoned exception: the zero-initialised search result, excluded by the mask invariant)', fn=p_C07, level='proof', explanation='Mask invariant allowed in [1,4095] is inductive over new/allow/forbid (Kleene iteration over the note slice, slice length partitioned 0 / >=1), forbid rescues the LAST note; the hysteresis early return is taken only on paths that imply the cached pitch class (note mod 12) is enabled now; every value find_nearest_note can return is the note of an enabled candidate (loop invariant: the recorded best is always pc*H+k*O with pc enabled, checked inductive over both back edges).'),
     'C08': dict(undecided='the hand-written nearest-note lemma that combines the decided premises (DESIGN §6 C08); f32 rounding of v*10^6 beyond the stated 10 uV tolerance', fn=p_C08, level='other', explanation='Every premise of the nearest-note lemma is decided from the MIR: (P1) candidates are visited in strictly ascending voltage: octaves exactly k-1 (if it exists), k, k+1 (if it exists) ascending, pitch classes 0..12 ascending, 11*H < O; (P2, R-ARGMIN) one iteration of the scan, from an ARBITRARY accumulator state, is one step of a running arg-min over |vin - candidate| with sound early exits: a disabled pitch class changes nothing; a candidate within one half step can only be returned itself; the best so far is returned early only when the current candidate is farther; the accumulators are updated together to (candidate, |vin - candidate|) and only when that is not farther than the best so far; (P3) every returned note is the visited candidate or the recorded best, the search input is the clamped input, microvolt constants consistent (drift < 10 uV); (P4) configuring the scale does not touch the conversion cache. The lemma (ascending candidates + these step rules => nearest allowed note with the semitone-bucket exception, ties either way, same in every octave) is a written proof, not machine-checked.'),
     'C09': dict(undecided='monotonicity of the note sequence (depends on C08 optimality)', fn=p_C09, level='other', explanation='convert(): early return exactly on paths implying (pitch class enabled) and stairstep-H < v < stairstep+W+H, rewriting only the fraction; every other path re-searches with the clamped input and its result carries no symbol of the previous conversion (history-free); the freshly constructed quantizer cannot take the early return. Monotonicity of the note sequence depends on C08 optimality and is not decided.'),
-    'C19': dict(undecided='the chromatic [0,1)-semitone clause and the two-ulp reproduction statement', fn=p_C19, level='other', explanation='On both return paths the record returned is the cached record, stairstep = note_num/12 is re-established whenever the note is written, fraction = v - stairstep (raw input on the hysteresis path, clamped input otherwise), early-return fraction within (-H, W+H). The chromatic [0,1)-semitone clause and the two-ulp statement are not decided.'),
+    'C19': dict(undecided='sufficiency for the chromatic [0,1)-semitone clause (only the necessary tiling condition R-TILING is decided: it FAILS on the pinned tree and is recorded as a known finding) and the two-ulp reproduction statement', fn=p_C19, level='other', explanation='On both return paths the record returned is the cached record, stairstep = note_num/12 is re-established whenever the note is written, fraction = v - stairstep (raw input on the hysteresis path, clamped input otherwise), early-return fraction within (-H, W+H). Chromatic clause: the necessary condition that twelve pitch-class steps of the candidate term fill one octave step exactly (R-TILING) is decided; it fails on the pinned tree (12*83333 uV < 1 V: known finding, see known_findings.json). The two-ulp statement is not decided.'),
     'C01': dict(undecided='bit-exact f32 statements ("exactly 1.0" is decided as P = 1 over the reals with the last table entry exactly 1.0)', fn=p_C01, level='other', explanation='calc_value per state and table-cell partition equals the documented blend start + (target-start)*sample as an exact polynomial term; its range over the invariant box (latched levels, sustain, table values in [0,1]) is [0,1] by vertex evaluation; start/end levels per phase; tables are the documented RC curves (node error + curvature bound); latches copy the output level; phases are entered in order, advance exactly on the wrap of the accumulated phase and restart at phase 0 (premises shared with C02). f32 rounding (<= 2 ulp) is not decided.'),
     'C02': dict(undecided='the tick-count inequality as a number (follows from the decided premises by the written lemma) and f32 rounding of the increment', fn=p_C02, level='other', explanation='Complete transition relation of gate_on/gate_off/tick (5 states x 3 methods, timed states forked on roll-over) against the C02 table; every timed tick programs trunc(2^24/(time*fs)) of its own phase; roll-over is implied exactly by acc+inc > mask on the advancing path and excluded on the staying path; increment >= 1 over all legal times (range computed from TimePeriod::from) and sample rates. The tick-count inequality follows from these premises by the written lemma (DESIGN §6 C02).'),
     'C03': dict(undecided='f32 rounding of the interpolation (<= 2 ulp)', fn=p_C03, level='proof', explanation='index() is the top 10 bits and fraction() the low 14 bits scaled to [0,1] (DDS pair terms); calc_value interpolates between adjacent cells (clamped at the end) in every timed state; gate events latch the level currently output and restart at phase 0; tick always recomputes the output from the post-state; table end points meet at phase boundaries; automatic transitions happen exactly on the wrap and restart at phase 0; integer -> f32 conversions in the accessors are exact. Over the reals; f32 rounding of the interpolation not decided.'),
@@ -354,7 +355,9 @@ def main(argv):
         res.ob('ANALYSIS', 'internal', False, 'internal error: %r' % (e,), key='ANALYSIS-INTERNAL')
     if facts is not None and getattr(facts, 'fallback_consts', None):
         res.extra['constants_not_found_spec_value_used'] = sorted(facts.fallback_consts)
-    if not res.violations():
+    from .core import load_known
+    known_keys = {k.get('key') for k in load_known() if k.get('status') == 'known' and k.get('property') == prop}
+    if not [v for v in res.violations() if v.key not in known_keys]:
         run_control(res, prop, spec, tier)
     assumptions = list(ASSUMPTIONS['common'])
     for g in PROP_ASSUMPTIONS.get(prop, []):
